@@ -52,7 +52,7 @@ def to_signed(v, bits):
 
 class Event:
     __slots__ = ('id', 'tid', 'idx', 'kind', 'addr', 'width', 'order', 'rval', 'wval', 'guard', 'succ', 'site', 'fail_order',
-                 'key', 'sched', 'obj', 'info', 'uid')
+                 'key', 'sched', 'obj', 'info', 'uid', 'seg', 'segk', 'lkey')
 
     def __init__(s, **kw):
         s.succ = None; s.rval = None; s.wval = None; s.fail_order = None; s.sched = 0; s.obj = None; s.info = None
@@ -122,8 +122,7 @@ class Scenario:
         s.gaddr = {}                # (global name, tid or None) -> address
         s.shared = set()            # bases of objects accessed by >= 2 threads
         s.accessors = {}            # base -> set(tid)
-        s.cand = {}                 # addr -> set of concrete values written (all passes)
-        s.cand_syms = {}            # addr -> set of source addrs whose candidates flow here
+        s.cand = {}                 # addr -> {value or 'TOP': set(writer tids)} (all passes)
         s.changed = False
         s.nd_syms = []              # nondet data symbols (global)
         s.assumes = []              # global assumptions (from setup)
@@ -150,10 +149,14 @@ class Scenario:
         return base
 
     def add_obj(s, o):
-        if o.base not in s.obj_by_base:
+        old = s.obj_by_base.get(o.base)
+        if old is None:
             s.obj_by_base[o.base] = o
             s.objs.append(o)
             s._sorted = None
+        elif o.size > old.size:
+            # different paths of a thread may place different objects at the same address: other threads see the largest extent
+            old.size = o.size; s._sorted = None
 
     def find_obj(s, addr):
         if getattr(s, '_sorted', None) is None:
@@ -174,15 +177,12 @@ class Scenario:
             if len(acc) >= 2 and obj.base not in s.shared:
                 s.shared.add(obj.base); s.changed = True
 
-    def add_cand(s, addr, val, src_addr=None):
-        if src_addr is not None:
-            cs = s.cand_syms.setdefault(addr, set())
-            if src_addr not in cs:
-                cs.add(src_addr); s.changed = True
-            return
-        c = s.cand.setdefault(addr, set())
-        if val not in c:
-            c.add(val); s.changed = True
+    def add_cand(s, addr, val, tid):
+        """val: concrete int or 'TOP' (unknown symbolic data); tid = writer thread"""
+        c = s.cand.setdefault(addr, {})
+        w = c.setdefault(val, set())
+        if tid not in w:
+            w.add(tid); s.changed = True
 
     def write_budget(s, tid, addr):
         """max number of writes other threads can perform on addr (from the previous pass); None = unknown yet"""
@@ -201,18 +201,93 @@ class Scenario:
         r.zero_undef = True
         return r.priv_load(addr, width)
 
-    def candidates(s, addr, seen=None):
-        seen = seen or set()
-        if addr in seen: return set()
-        seen.add(addr)
-        out = set(s.cand.get(addr, ()))
-        w = s.width_of.get(addr, 8)
-        iv = s.init_value(addr, w)
-        if isinstance(iv, int): out.add(iv)
-        else: out.add('TOP')
-        for a2 in s.cand_syms.get(addr, ()):
-            out |= s.candidates(a2, seen)
+    def candidates(s, addr, reader_tid=None):
+        """values other threads may have written to addr"""
+        out = set()
+        for v, tids in s.cand.get(addr, {}).items():
+            if reader_tid is None or (tids - {reader_tid}):
+                out.add(v)
         return out
+
+
+class JoinNode:
+    """a merge point of thread paths (explicit vf_join() in the scenario): paths that arrive with the same live state share
+    one continuation; reach = disjunction over the arriving path conditions"""
+    def __init__(s, tid, nid, key, owner):
+        s.tid = tid; s.id = nid; s.key = key; s.owner = owner
+        s.preds = {}            # dedupe key -> (pred node or None, [constraints])
+        s.reach = z3.Bool('reach_%d_%d' % (tid, nid))
+        s.pred_len = 0          # longest po position of an arriving path (for a monotone numbering)
+
+
+def live_after_calls(fn):
+    """registers of fn live after each call instruction: {(block name, instr index): set(names)} (standard backward dataflow)"""
+    blocks = {b.name: b for b in fn.blocks}
+    def uses(I):
+        out = set()
+        ops = list(I.args)
+        if I.op == 'phi': ops = []
+        c = I.extra.get('callee')
+        if c is not None: ops.append(c)
+        for a in ops:
+            if isinstance(a, Local): out.add(a.name)
+        return out
+    succs = {}
+    for b in fn.blocks:
+        t = b.instrs[-1]
+        ss = []
+        if t.op == 'br': ss = list(t.extra['targets'])
+        elif t.op == 'switch': ss = [t.extra['default']] + [l for _, l in t.extra['cases']]
+        elif t.op == 'invoke': ss = [t.extra['normal'], t.extra['unwind']]
+        succs[b.name] = ss
+    live_in = {b.name: set() for b in fn.blocks}
+    changed = True
+    while changed:
+        changed = False
+        for b in reversed(fn.blocks):
+            live = set()
+            for sname in succs[b.name]:
+                sb = blocks[sname]
+                l = set(live_in[sname])
+                for I in sb.instrs:
+                    if I.op != 'phi': break
+                    l.discard(I.res)
+                for I in sb.instrs:
+                    if I.op != 'phi': break
+                    for (v, lbl) in I.extra['incoming']:
+                        if lbl == b.name and isinstance(v, Local): l.add(v.name)
+                live |= l
+            for I in reversed(b.instrs):
+                if I.res is not None: live.discard(I.res)
+                if I.op != 'phi': live |= uses(I)
+                else: live.add(I.res) if False else None
+            # phi results are defined at block entry: not live-in
+            for I in b.instrs:
+                if I.op != 'phi': break
+                live.discard(I.res)
+            if live != live_in[b.name]:
+                live_in[b.name] = live; changed = True
+    out = {}
+    for b in fn.blocks:
+        live = set()
+        for sname in succs[b.name]:
+            sb = blocks[sname]
+            l = set(live_in[sname])
+            for I in sb.instrs:
+                if I.op != 'phi': break
+                l.discard(I.res)
+            for I in sb.instrs:
+                if I.op != 'phi': break
+                for (v, lbl) in I.extra['incoming']:
+                    if lbl == b.name and isinstance(v, Local): l.add(v.name)
+            live |= l
+        for i in range(len(b.instrs) - 1, -1, -1):
+            I = b.instrs[i]
+            if I.op in ('call', 'invoke'):
+                out[(b.name, i)] = set(live) - ({I.res} if I.res is not None else set())
+            if I.res is not None: live.discard(I.res)
+            if I.op != 'phi': live |= uses(I)
+    return out
 
 
 class Frame:
@@ -247,8 +322,18 @@ class ThreadRun:
         s.steps = 0
         s.callstack = []
         s.freed = set()
+        s.local_objs = {}
+        s.join_count = 0
+        s.seg_node = None
+        s.own_unknown = False
+        s.join_table = None
+        s.joined_to = None
+        s.seg_starts = [0]
+        s.seg_dstart = 0
         s.tls_done = set()
         s.last_val = {}
+        s.own_last = {}
+        s.sym_allowed = s.sc.__dict__.setdefault('sym_allowed', {})
         s.changes = {}
 
     # ------------------------------------------------------------------ decisions
@@ -304,7 +389,10 @@ class ThreadRun:
         src = s.sc_sym_src.get(name)
         if src is None:
             raise Unsupported('symbolic %s does not come from a load: %s at %s' % (what, v, site))
-        cands = sorted(c for c in s.sc.candidates(src) if c != 'TOP')
+        al = s.sym_allowed.get(name)
+        if al is None:
+            raise Unsupported('symbolic %s with unbounded value set: %s at %s' % (what, v, site))
+        cands = sorted(al)
         if not cands:
             raise PathEnd('no-candidates')
         opts = [(hex(c), x == z3.BitVecVal(c, x.size())) for c in cands]
@@ -325,14 +413,28 @@ class ThreadRun:
     def alloca(s, size, name):
         base = (s.stack_ptr + 15) // 16 * 16
         s.stack_ptr = base + max(size, 1) + 16
-        s.sc.add_obj(Obj(base, max(size, 1), s.tid, 'stack', name))
+        o = Obj(base, max(size, 1), s.tid, 'stack', name)
+        s.sc.add_obj(o)
+        s.local_objs[base] = o
+        s.freed.discard(base)
         return base
 
     def malloc(s, size, name):
         base = (s.heap_ptr + 15) // 16 * 16
         s.heap_ptr = base + max(size, 1) + 16
-        s.sc.add_obj(Obj(base, max(size, 1), s.tid, 'heap', name))
+        o = Obj(base, max(size, 1), s.tid, 'heap', name)
+        s.sc.add_obj(o)
+        s.local_objs[base] = o
         return base
+
+    def find_obj(s, addr):
+        """objects this path allocated itself are known exactly; everything else comes from the scenario registry"""
+        lo = 0x10000000 * (s.tid + 1)
+        if lo <= addr < lo + 0x10000000:
+            for base, o in s.local_objs.items():
+                if base <= addr < base + o.size: return o
+            return None
+        return s.sc.find_obj(addr)
 
     def is_shared(s, obj):
         if s.mode == 'private': return False
@@ -345,7 +447,10 @@ class ThreadRun:
         if e is None:
             e = Event(id=len(s.evcache), tid=s.tid, key=key, **kw)
             e.guard = list(s.constraints)
-            e.idx = len(s.events)
+            e.idx = s.cur_pos()
+            e.seg = s.seg_node.id if s.seg_node is not None else -1
+            e.segk = s.join_count
+            e.lkey = tuple(s.decisions[s.seg_dstart:])
             if e.kind in ('R', 'RMW', 'WAIT'):
                 e.rval = z3.BitVec('r%d_%d' % (s.tid, e.id), e.width * 8)
                 s.sc_sym_src[e.rval.decl().name()] = e.addr
@@ -355,16 +460,43 @@ class ThreadRun:
         s.events.append(e)
         if e.rval is not None:
             s.note_change_budget(e)
-            # a read can only return a value that some write (or the initial image) put there: prune locally
-            cs = s.sc.candidates(e.addr)
-            if cs and 'TOP' not in cs and len(cs) <= 16:
-                s.solver.add(z3.Or(*[e.rval == z3.BitVecVal(c, e.width * 8) for c in cs]))
+            # a read returns the thread's own latest write to the location (or the initial value if it has not written it)
+            # or a value some OTHER thread writes there: prune locally
+            own = s.own_last.get(e.addr)
+            cs = set(s.sc.candidates(e.addr, None if (own is None and s.own_unknown) else s.tid))
+            if own is None:
+                own = s.sc.init_value(e.addr, e.width)
+            allowed = None
+            if 'TOP' not in cs:
+                if is_c(own): cs.add(own); allowed = cs
+                else:
+                    ov = s.sym_values(own)
+                    if ov is not None: allowed = cs | ov
+            s.sym_allowed[e.rval.decl().name()] = allowed
+            if allowed is not None and len(allowed) <= 24:
+                s.solver.add(z3.Or(*[e.rval == z3.BitVecVal(c, e.width * 8) for c in sorted(allowed)]))
         return e
+
+    def sym_values(s, v):
+        """finite set of concrete values a simple symbolic value can take (None = unknown)"""
+        if is_c(v): return {v}
+        if z3.is_bv_value(v): return {v.as_long()}
+        if z3.is_app_of(v, z3.Z3_OP_ITE):
+            a, b = s.sym_values(v.arg(1)), s.sym_values(v.arg(2))
+            return None if a is None or b is None else a | b
+        if z3.is_const(v):
+            n = v.decl().name()
+            if n in s.binding: return {s.binding[n]}
+            return s.sym_allowed.get(n)
+        return None
 
     def note_change_budget(s, e):
         """the value a thread sees at an address can only change (w.r.t. what it last read or wrote there) when another
         thread writes in between; the number of such writes is bounded by what the other threads can do (previous pass)"""
         prev = s.last_val.get(e.addr)
+        if prev is None and s.own_unknown:
+            s.last_val[e.addr] = e.rval
+            return
         if prev is None:
             prev = s.sc.init_value(e.addr, e.width)
         bits = e.width * 8
@@ -376,6 +508,12 @@ class ThreadRun:
         if budget is not None and len(lst) > budget:
             s.solver.add(z3.PbLe([(c, 1) for c in lst], budget))
         s.last_val[e.addr] = e.rval
+
+    SEG = 1000000
+
+    def cur_pos(s):
+        """program-order position, monotone along every path also across merge points: segment number * SEG + offset"""
+        return s.join_count * s.SEG + (len(s.events) - s.seg_starts[-1])
 
     def priv_load(s, addr, width):
         c = s.store.get(addr)
@@ -411,7 +549,7 @@ class ThreadRun:
                     v = c[1]; sh = (a - base) * 8
                     if is_c(v): return (v >> sh) & 0xff
                     return simp(z3.Extract(sh + 7, sh, v))
-        o = s.sc.find_obj(a)
+        o = s.find_obj(a)
         if o is not None and o.kind in ('global', 'tls'):
             return 0
         if getattr(s, 'zero_undef', False): return 0
@@ -438,35 +576,33 @@ class ThreadRun:
         s.store[addr] = (width, val)
 
     def check_addr(s, addr, width, site, write):
-        o = s.sc.find_obj(addr)
+        o = s.find_obj(addr)
         if o is None or addr + width > o.base + o.size:
-            s.asserts.append((list(s.constraints), False, 'memory: invalid pointer dereference (0x%x) at %s' % (addr, site), len(s.events)))
+            s.asserts.append((list(s.constraints), False, 'memory: invalid pointer dereference (0x%x) at %s' % (addr, site), s.cur_pos()))
             raise PathEnd('invalid-deref')
         if o.kind == 'func':
             raise Unsupported('data access to function address')
         return o
 
     def load(s, addr, width, order, site):
-        s.sched += 1
         o = s.check_addr(addr, width, site, False)
         if s.mode != 'private':
             s.sc.note_access(o, s.tid)
         if not s.is_shared(o):
             if o.base in s.freed:
-                s.asserts.append((list(s.constraints), False, 'memory: access to freed block at %s' % site, len(s.events)))
+                s.asserts.append((list(s.constraints), False, 'memory: access to freed block at %s' % site, s.cur_pos()))
             return s.priv_load(addr, width)
         e = s.new_event(kind='R', addr=addr, width=width, order=order, site=site, obj=o.base)
         return s.subst(e.rval)
 
     def store_(s, addr, width, val, order, site):
-        s.sched += 1
         o = s.check_addr(addr, width, site, True)
         if s.mode != 'private':
             s.sc.note_access(o, s.tid)
         if not is_c(val): val = simp(val)
         if not s.is_shared(o):
             if o.base in s.freed:
-                s.asserts.append((list(s.constraints), False, 'memory: access to freed block at %s' % site, len(s.events)))
+                s.asserts.append((list(s.constraints), False, 'memory: access to freed block at %s' % site, s.cur_pos()))
             s.priv_store(addr, width, val)
             if s.mode == 'private':
                 s.note_cand(addr, width, val)
@@ -474,24 +610,18 @@ class ThreadRun:
         e = s.new_event(kind='W', addr=addr, width=width, order=order, site=site, obj=o.base)
         e.wval = val
         s.last_val[addr] = val
+        s.own_last[addr] = val
         s.note_cand(addr, width, val)
 
     def note_cand(s, addr, width, val):
-        if is_c(val):
-            s.sc.add_cand(addr, val)
+        if s.mode == 'private': return          # only the final image of vf_setup matters (init_value)
+        vs = s.sym_values(val if is_c(val) else simp(val))
+        if vs is None:
+            s.sc.add_cand(addr, 'TOP', s.tid)
         else:
-            for x in z3_vars(val):
-                src = s.sc_sym_src.get(x.decl().name())
-                if src is not None:
-                    s.sc.add_cand(addr, None, src)
-            # ite of constants etc.: collect constants
-            for c in z3_consts(val):
-                s.sc.add_cand(addr, c)
-            if any(x.decl().name() not in s.sc_sym_src for x in z3_vars(val)) or not z3_is_simple(val):
-                s.sc.add_cand(addr, 'TOP')
+            for c in vs: s.sc.add_cand(addr, c, s.tid)
 
     def rmw(s, addr, width, op, operand, order, site):
-        s.sched += 1
         o = s.check_addr(addr, width, site, True)
         if s.mode != 'private':
             s.sc.note_access(o, s.tid)
@@ -513,11 +643,11 @@ class ThreadRun:
         e.wval = apply(e.rval)
         e.succ = True
         s.last_val[addr] = e.wval
+        s.own_last[addr] = e.wval
         s.note_cand(addr, width, apply(old) if op != 'xchg' else operand)
         return old
 
     def cmpxchg(s, addr, width, expected, new, order, fail_order, site):
-        s.sched += 1
         o = s.check_addr(addr, width, site, True)
         if s.mode != 'private':
             s.sc.note_access(o, s.tid)
@@ -542,11 +672,11 @@ class ThreadRun:
         e.wval = new
         s.note_cand(addr, width, new)
         ok = s.truth(z3.If(simp(bv(old, bits) == bv(expected, bits)), z3.BitVecVal(1, 1), z3.BitVecVal(0, 1)), site)
-        if ok: s.last_val[addr] = new
+        if ok:
+            s.last_val[addr] = new; s.own_last[addr] = new
         return old, 1 if ok else 0
 
     def fence(s, order, site):
-        s.sched += 1
         if s.mode == 'private': return
         s.new_event(kind='F', addr=0, width=0, order=order, site=site)
 
@@ -730,7 +860,6 @@ class ThreadRun:
         x = s.val(None, v)
         w = L.size(ty)
         s.store[addr] = (w, x)
-        if w == 8 and isinstance(x, int): s.sc.add_cand(addr, x)
 
     def init_globals(s):
         mod = s.sc.mod
@@ -789,7 +918,7 @@ class ThreadRun:
                 c = fr.loop_counts.get(key, 0) + 1
                 fr.loop_counts[key] = c
                 if c > s.sc.opts.get('loop_bound', 4):
-                    s.asserts.append((list(s.constraints), 'BOUND', 'bound: loop %s->%s in %s exceeded %d iterations' % (b.name, nxt, f.name, c - 1), len(s.events)))
+                    s.asserts.append((list(s.constraints), 'BOUND', 'bound: loop %s->%s in %s exceeded %d iterations' % (b.name, nxt, f.name, c - 1), s.cur_pos()))
                     raise PathEnd('bound')
                 fr.prev_block = b.name
                 fr.block = blocks[nxt]
@@ -799,11 +928,13 @@ class ThreadRun:
     def scope_end(s, fr):
         # stack objects die when their frame returns; shared ones get a lifetime-end event
         for base in fr.allocas:
-            o = s.sc.obj_by_base.get(base)
+            o = s.local_objs.get(base)
             if o is not None and s.is_shared(o):
                 e = s.new_event(kind='FREE', addr=base, width=0, order='na', site='scope-end:' + o.name, obj=base)
             else:
                 s.freed.add(base)
+                if o is not None:
+                    for a in [a for a in s.store if base <= a < base + o.size]: del s.store[a]
 
     def site(s, fr, I):
         return '%s:%s' % (fr.fn.name[:60], I.res if I.res is not None else I.op)
@@ -811,6 +942,8 @@ class ThreadRun:
     def exec_instr(s, fr, I, b):
         op = I.op
         R = fr.regs
+        if op in ('load', 'store', 'cmpxchg', 'atomicrmw', 'fence'):
+            s.sched += 1          # one scheduling point per memory instruction (matches the instrumented native replay build)
         if op in BINOPS:
             R[I.res] = s.binop(op, s.val(fr, I.args[0]), s.val(fr, I.args[1]), I.ty.bits)
         elif op == 'icmp':
@@ -903,7 +1036,7 @@ class ThreadRun:
         elif op == 'ret':
             return ('ret', s.val(fr, I.args[0]) if I.args else None)
         elif op == 'unreachable':
-            s.asserts.append((list(s.constraints), False, "rt: 'unreachable' reached in %s" % fr.fn.name, len(s.events)))
+            s.asserts.append((list(s.constraints), False, "rt: 'unreachable' reached in %s" % fr.fn.name, s.cur_pos()))
             raise PathEnd('unreachable')
         elif op in ('call', 'invoke'):
             r = s.exec_call(fr, I)
@@ -960,7 +1093,7 @@ class ThreadRun:
             addr = s.concretize(s.val(fr, callee), site, 'function pointer')
             name = s.sc.fname.get(addr)
             if name is None:
-                s.asserts.append((list(s.constraints), False, 'memory: call through invalid function pointer 0x%x at %s' % (addr, site), len(s.events)))
+                s.asserts.append((list(s.constraints), False, 'memory: call through invalid function pointer 0x%x at %s' % (addr, site), s.cur_pos()))
                 raise PathEnd('bad-call')
         args = I.args
         A = lambda i: s.val(fr, args[i])
@@ -994,7 +1127,7 @@ class ThreadRun:
             if is_c(c): return a if c else b2
             return simp(z3.If(c == z3.BitVecVal(1, 1), bv(a, bits), bv(b2, bits)))
         if name == 'llvm.trap':
-            s.asserts.append((list(s.constraints), False, 'rt: llvm.trap at %s' % site, len(s.events)))
+            s.asserts.append((list(s.constraints), False, 'rt: llvm.trap at %s' % site, s.cur_pos()))
             raise PathEnd('trap')
         if name.startswith('llvm.coro.') or name.startswith('llvm.eh.'):
             raise Unsupported('intrinsic ' + name)
@@ -1012,7 +1145,7 @@ class ThreadRun:
         off = 0
         while off < n:
             w = None
-            so = s.sc.find_obj(sr + off)
+            so = s.find_obj(sr + off)
             if so is not None and not s.is_shared(so):
                 w = s.cell_width_at(sr + off, n - off)
             if w is None:
@@ -1050,16 +1183,16 @@ class ThreadRun:
         if name in ('_ZdlPv', '_ZdaPv', '_ZdlPvm', '_ZdaPvm', 'free'):
             p = s.concretize(A(0), site)
             if p == 0: return None
-            o = sc.find_obj(p)
+            o = s.find_obj(p)
             if o is None or o.base != p or o.kind != 'heap':
-                s.asserts.append((list(s.constraints), False, 'memory: delete of a pointer that is not a live heap block at %s' % site, len(s.events)))
+                s.asserts.append((list(s.constraints), False, 'memory: delete of a pointer that is not a live heap block at %s' % site, s.cur_pos()))
                 raise PathEnd('bad-free')
             if s.mode != 'private': sc.note_access(o, s.tid)
             if s.is_shared(o):
                 s.new_event(kind='FREE', addr=p, width=0, order='na', site='delete:' + site, obj=p)
             else:
                 if p in s.freed:
-                    s.asserts.append((list(s.constraints), False, 'memory: double delete at %s' % site, len(s.events)))
+                    s.asserts.append((list(s.constraints), False, 'memory: double delete at %s' % site, s.cur_pos()))
                 s.freed.add(p)
             return None
         if name == 'malloc':
@@ -1069,16 +1202,18 @@ class ThreadRun:
             c = A(0)
             msg = s.cstring(s.concretize(A(1), site))
             if is_c(c):
-                if not c: s.asserts.append((list(s.constraints), False, msg, len(s.events)))
+                if not c: s.asserts.append((list(s.constraints), False, msg, s.cur_pos()))
             else:
                 c = simp(s.subst(c))
                 if is_c(c):
-                    if not c: s.asserts.append((list(s.constraints), False, msg, len(s.events)))
+                    if not c: s.asserts.append((list(s.constraints), False, msg, s.cur_pos()))
                 else:
-                    s.asserts.append((list(s.constraints), z3.simplify(c != z3.BitVecVal(0, c.size())), msg, len(s.events)))
+                    s.asserts.append((list(s.constraints), z3.simplify(c != z3.BitVecVal(0, c.size())), msg, s.cur_pos()))
             return None
+        if name == 'vf_join':
+            return s.join(fr, I, site)
         if name == 'vf_reach':
-            s.asserts.append((list(s.constraints), 'REACH', s.cstring(s.concretize(A(0), site)), len(s.events)))
+            s.asserts.append((list(s.constraints), 'REACH', s.cstring(s.concretize(A(0), site)), s.cur_pos()))
             return None
         if name == '__CPROVER_assume':
             c = A(0)
@@ -1097,7 +1232,7 @@ class ThreadRun:
         if name == '__assert_fail':
             msg = s.cstring(s.concretize(A(0), site)); fn = s.cstring(s.concretize(A(1), site))
             ln = A(2)
-            s.asserts.append((list(s.constraints), False, 'libassert %s:%s: %s' % (fn.split('/')[-1], ln, msg), len(s.events)))
+            s.asserts.append((list(s.constraints), False, 'libassert %s:%s: %s' % (fn.split('/')[-1], ln, msg), s.cur_pos()))
             raise PathEnd('assert-fail')
         if name == 'vf_atomic_wait':
             p = s.concretize(A(0), site); old = A(1); size = s.concretize(A(2), site, 'size')
@@ -1105,13 +1240,63 @@ class ThreadRun:
         if name == 'vf_atomic_notify':
             return None
         if name in ('_ZSt9terminatev', '__cxa_pure_virtual', 'abort'):
-            s.asserts.append((list(s.constraints), False, 'rt: std::terminate/abort reached at %s' % site, len(s.events)))
+            s.asserts.append((list(s.constraints), False, 'rt: std::terminate/abort reached at %s' % site, s.cur_pos()))
             raise PathEnd('terminate')
         if name == '__cxa_thread_atexit': return 0
         if name in ('sched_yield',): return 0
         if name == 'pthread_self': return s.tid + 1
         if name == '__cxa_atexit': return 0
         raise Unsupported('external function %s called from %s' % (name, fr.fn.name))
+
+    def join(s, fr, I, site):
+        if s.mode == 'private' or s.sc.opts.get('no_join'): return None
+        if len(s.callstack) != 1:
+            raise Unsupported('vf_join() must be called directly from the thread entry function')
+        fn = fr.fn
+        la = s.sc.__dict__.setdefault('live_cache', {})
+        if fn.name not in la: la[fn.name] = live_after_calls(fn)
+        idx = fr.block.instrs.index(I)
+        live = la[fn.name].get((fr.block.name, idx), set())
+        def canon(v):
+            if isinstance(v, list): return tuple(canon(x) for x in v)
+            if is_c(v): return v
+            v = simp(s.subst(v))
+            return v if is_c(v) else v.sexpr()
+        regs = tuple(sorted((n, canon(fr.regs[n])) for n in live if n in fr.regs))
+        cells = tuple(sorted((a, w, canon(v)) for a, (w, v) in s.store.items()))
+        heap_freed = tuple(sorted(b for b in s.freed if s.local_objs.get(b) is not None and s.local_objs[b].kind == 'heap'))
+        s.join_count += 1
+        key = (s.join_count, fr.block.name, idx, regs, cells, s.heap_ptr, heap_freed, tuple(sorted(s.tls_done)))
+        table = s.join_table
+        node = table.get(key)
+        me = tuple(s.decisions)
+        if node is None:
+            node = JoinNode(s.tid, len(table), key, me)
+            table[key] = node
+        pk = (s.seg_node.id if s.seg_node is not None else -1, tuple(c.sexpr() for c in s.constraints))
+        if pk not in node.preds:
+            node.preds[pk] = (s.seg_node, list(s.constraints))
+        node.pred_len = max(node.pred_len, len(s.events))
+        if node.owner != me:
+            s.joined_to = node
+            raise PathEnd('joined')
+        # continue as the representative of every path that arrives here with this state
+        for n in live:
+            if n in fr.regs and not isinstance(fr.regs[n], list) and not is_c(fr.regs[n]): fr.regs[n] = simp(s.subst(fr.regs[n]))
+        for a, (w, v) in list(s.store.items()):
+            if not is_c(v): s.store[a] = (w, simp(s.subst(v)))
+        for n in list(fr.regs):
+            if n not in live: del fr.regs[n]
+        s.seg_node = node
+        s.constraints = [node.reach]
+        s.solver = z3.Solver()
+        s.binding = {}
+        s.last_val = {}; s.changes = {}; s.own_last = {}; s.own_unknown = True
+        s.stack_ptr = 0x10000000 * (s.tid + 1) + 0x100000 * s.join_count
+        s.sched = s.join_count << 32
+        s.seg_starts.append(len(s.events))
+        s.seg_dstart = len(s.decisions)
+        return None
 
     def atomic_wait(s, p, old, size, site):
         """blocking read: passes only with a value != old. A path that cannot pass ends 'stuck' (deadlock query)."""
@@ -1123,7 +1308,7 @@ class ThreadRun:
             cur = s.priv_load(p, size)
             if is_c(cur) and is_c(oldv):
                 if cur != oldv: return None
-                s.asserts.append((list(s.constraints), False, 'rt: atomic wait blocks forever (no other thread can change the value) at %s' % site, len(s.events)))
+                s.asserts.append((list(s.constraints), False, 'rt: atomic wait blocks forever (no other thread can change the value) at %s' % site, s.cur_pos()))
                 raise PathEnd('stuck-private')
             raise Unsupported('symbolic private wait')
         e = s.new_event(kind='WAIT', addr=p, width=size, order='seq_cst', site=site, obj=o.base)
@@ -1170,12 +1355,14 @@ def explore_thread(sc, tid, entry, mode, max_paths=4000):
     work = [[]]
     runs = []
     seen = set()
+    join_table = {}
     while work:
         prefix = work.pop()
         key = tuple(prefix)
         if key in seen: continue
         seen.add(key)
         r = ThreadRun(sc, tid, entry, prefix, evcache, mode)
+        r.join_table = join_table
         r.run()
         for alt in r.new_alternatives:
             work.append(alt)
